@@ -19,6 +19,7 @@
 //	                                         the cleanup's write was applied                                  (O-12)
 //	session-cleanup:orphaned-record-of-dead-session   a record carrying the id of a session that no longer exists  (O-12)
 //	session-cleanup:other-record-touched / owned-record-survived (no interleaving involved) / session-key-survived
+//	session:leader-close-blocked-by-expiring-session   (watchdog of the leader-change scenario, see closeLeader)
 //
 // The O-12 schedules are forced, not raced: the kv.Factory handed to the controller is wrapped, and the key iterator
 // that serves session.delete()'s ListBlock (range "__oxia/session/<id>/" .. "//") parks when it reaches its end
@@ -54,27 +55,35 @@ const internalPrefix = "__oxia/"
 
 type gate struct {
 	mu      sync.Mutex
-	prefix  string // lower bound of the range to park on ("" = not armed)
+	armed   bool
+	exclude map[string]bool // lower bounds that do not trigger the gate
 	reached chan struct{}
 	release chan struct{}
 }
 
-func (g *gate) arm(sessionId int64) {
+// armNext parks the next listing of a session's shadow range ("__oxia/session/<16 hex>/"), i.e. the next
+// session.delete(), except those of the excluded sessions. Armed before the session is created, so that the gate
+// cannot be missed however early the session expires.
+func (g *gate) armNext(excluded ...int64) {
 	g.mu.Lock()
 	defer g.mu.Unlock()
-	g.prefix = server.SessionKey(server.SessionId(sessionId)) + "/"
+	g.armed = true
+	g.exclude = map[string]bool{}
+	for _, id := range excluded {
+		g.exclude[server.SessionKey(server.SessionId(id))+"/"] = true
+	}
 	g.reached = make(chan struct{})
 	g.release = make(chan struct{})
 }
 
-// take returns the channels if the range scan [lower, ..) is the armed one (one shot).
+// take returns the channels if the range scan [lower, ..) is a session's shadow range and the gate is armed (one shot).
 func (g *gate) take(lower string) (reached, release chan struct{}) {
 	g.mu.Lock()
 	defer g.mu.Unlock()
-	if g.prefix == "" || lower != g.prefix {
+	if !g.armed || g.exclude[lower] || len(lower) != len(sessionPrefix)+17 || !strings.HasPrefix(lower, sessionPrefix) || !strings.HasSuffix(lower, "/") {
 		return nil, nil
 	}
-	g.prefix = ""
+	g.armed = false
 	return g.reached, g.release
 }
 
@@ -199,9 +208,32 @@ func (n *node) lead() {
 	n.lc = lc
 }
 
+// closeLeader runs lc.Close() under a watchdog: leaderController.Close()/NewTerm() hold the controller's lock while
+// sessionManager.Close() waits for every session goroutine, and a session goroutine that is in its expiry branch
+// needs that lock (WriteBlock) and the session manager's lock: if the two meet, Close never returns.
+func (n *node) closeLeader(limit time.Duration) bool {
+	done := make(chan struct{})
+	lc := n.lc
+	go func() {
+		_ = lc.Close()
+		close(done)
+	}()
+	select {
+	case <-done:
+		return true
+	case <-time.After(limit):
+		return false
+	}
+}
+
 func (n *node) close() {
-	if n.lc != nil {
-		_ = n.lc.Close()
+	if n.kvf == nil { // abandoned (wedged controller)
+		_ = os.RemoveAll(n.dir)
+		return
+	}
+	if n.lc != nil && !n.closeLeader(5*time.Second) {
+		_ = os.RemoveAll(n.dir) // the controller is wedged: leave it behind
+		return
 	}
 	_ = n.kvf.Close()
 	_ = n.wf.Close()
@@ -484,7 +516,11 @@ func runScen(s scen, o *hx.Out, mu *sync.Mutex) {
 		n.put(k1, "e1", &id)
 		n.put(k2, "plain", nil)
 		time.Sleep(T * time.Duration(2+s.variant%6) / 10) // 0.2T .. 0.7T idle
-		hx.Must(n.lc.Close())
+		if !n.closeLeader(5 * time.Second) {
+			viol("session:leader-close-blocked-by-expiring-session", fmt.Sprintf("leaderController.Close() did not return within 5 s while session %d (timeout %v) was idle", id, T))
+			n.lc = nil
+			break
+		}
 		b0 := time.Now()
 		n.lead()
 		b1 := time.Now()
@@ -572,11 +608,11 @@ func runScen(s scen, o *hx.Out, mu *sync.Mutex) {
 		}
 		other, _ := n.create(10 * time.Second)
 		n.put(k3, "bystander", &other)
-		id, _ := n.create(longT)
-		n.put(k1, "e1", &id)
-		n.g.arm(id)
+		n.g.armNext(other)
 		reached := n.g.reached
 		release := n.g.release
+		id, _ := n.create(longT)
+		n.put(k1, "e1", &id)
 		closed := make(chan error, 1)
 		if s.name == "o12-close" {
 			go func() {
@@ -611,12 +647,47 @@ func runScen(s scen, o *hx.Out, mu *sync.Mutex) {
 			if err := <-closed; err != nil {
 				panic(err)
 			}
-		} else if _, ok := n.waitGone(id, 5*time.Second); !ok {
-			panic("the parked cleanup never finished")
+		} else if _, ok := n.waitGone(id, 3*time.Second); !ok {
+			viol("session-cleanup:session-key-survived", fmt.Sprintf("session %d expired and its cleanup ran, but its key is still stored 3 s later", id))
 		}
 		after := n.view()
 		cleanupExact(before, after, id, viol)
 		after.mirror(viol)
+	case "close-during-expiry":
+		// DIAGNOSTIC (liveness, not part of C14's claim, no verdict): the expiring session's goroutine is parked in
+		// delete(); Close() is called; the goroutine is released. Recorded in the case result and the statistics.
+		n.g.armNext()
+		reached, release := n.g.reached, n.g.release
+		id, _ := n.create(T)
+		n.put(k1, "e1", &id)
+		select {
+		case <-reached:
+		case <-time.After(T + 5*time.Second):
+			panic("the cleanup's List never reached the gate")
+		}
+		done := make(chan struct{})
+		lc := n.lc
+		go func() {
+			_ = lc.Close()
+			close(done)
+		}()
+		time.Sleep(30 * time.Millisecond)
+		close(release)
+		select {
+		case <-done:
+			res = "close-returned"
+			mu.Lock()
+			o.Count("diagnostic:close-during-expiry:returned")
+			mu.Unlock()
+			n.lc = nil
+		case <-time.After(2 * time.Second):
+			res = "close-blocked-forever"
+			mu.Lock()
+			o.Count("diagnostic:close-during-expiry:deadlock")
+			mu.Unlock()
+			n.lc = nil
+			n.kvf = nil
+		}
 	default:
 		panic("unknown scenario " + s.name)
 	}
@@ -654,6 +725,7 @@ func main() {
 	for v := 0; v < 5; v++ {
 		scens = append(scens, scen{"o12-close", 0, v + 5*rng.Intn(2)}, scen{"o12-expiry", 150 * time.Millisecond, v + 5*rng.Intn(2)})
 	}
+	scens = append(scens, scen{"close-during-expiry", 100 * time.Millisecond, 0})
 	for i := 0; i < f.N; i++ {
 		T := hx.Pick(rng, timeouts) * time.Millisecond
 		for _, name := range []string{"expiry", "heartbeats", "leader-change", "dead-write", "takeover"} {
